@@ -232,7 +232,7 @@ CLAIMED = {
                 "merges (invariant) and returns the merged order; record_alloc succeeds iff order admissible, block in range and entirely free; "
                 "resize grow/shrink preserve the invariant; serialize/deserialize round trip. The model equals the real BuddyAllocator op by op "
                 "(answers, free/len/trailing/highest counters, serialized bytes) on every op sequence of fixed depth over small capacities and "
-                "random contract-respecting programs; disjointness/completeness/merge order are also evaluated on the implementation alone.",
+                "random contract-respecting programs; disjointness/completeness/merge order are also evaluated on the implementation alone. Region level (Model/Region.lean): a model of RegionTracker + Allocators with the allocate retry loop, free, resize_to (grow and shrink), grow, try_shrink and load; the invariant TrackerSound - the tracker never reports a region full that has a free block of that order or larger, reports every index beyond the existing regions full, every region allocator satisfies the buddy invariant - holds initially and in every reachable state of every operation sequence; allocation succeeds without growing whenever some region has a suitable block, what it returns was free and lies in an existing region, freed space can be allocated again; the two defect shapes seeded at this level are counter-examples of the corresponding variants. After every state of multi-region histories the serialized tracker and allocators are decoded and judged by a checker proved equivalent to TrackerSound.",
         "note": NOTE + "; the multi-region layer (RegionTracker never hides free space, allocate retry loop, free_helper mark_free) is observed through the history harness snapshots (C06) and not yet a Lean theorem; 64-way summary levels of BtreeBitmap are modelled only through the serialized bytes",
         "technique": "Lean 4 proof (inductive invariant of the buddy allocator) + differential correspondence incl. exhaustive small op sequences",
         "design_ref": "DESIGN.md §6 C14",
